@@ -145,6 +145,8 @@ static void verif_fail (const char *kind, void *at, long a, long b) {
     snprintf(sexp_verif.fail_msg, sizeof(sexp_verif.fail_msg),
              "%s at %p (%ld, %ld) gc#%llu", kind, at, a, b,
              (unsigned long long)sexp_verif.gcs);
+  if (!sexp_verif.check_fail)
+    fprintf(stderr, "VERIF-HEAP-CHECK: %s\n", sexp_verif.fail_msg);
   sexp_verif.check_fail++;
 }
 
@@ -251,6 +253,19 @@ static void verif_check_heap (sexp ctx, int full) {
       if (size == 0 || (char*)p + size > (char*)end) { verif_fail("object-overruns-heap", p, (long)size, tag); goto done; }
       if (r && (char*)p + size > (char*)r) { verif_fail("object-overlaps-free-chunk", p, (long)size, tag); goto done; }
       if (full && sexp_markedp(p)) verif_fail("mark-bit-left-set", p, tag, 0);
+#if VERIF_ASAN
+      if (sexp_verif.poison) {
+        /* layout: no pointer slot of any object may lie in the poisoned slack beyond its requested size */
+        t = types[tag];
+        n = sexp_type_num_slots_of_object(t, p);
+        slots = (sexp*) (((char*)p) + sexp_type_field_base(t));
+        for (i = 0; i < n && (char*)(slots + i) < (char*)p + size; i++)
+          if (__asan_address_is_poisoned(&slots[i])) {
+            verif_fail("slot-lies-in-poisoned-slack", p, (long)i, tag);
+            break;
+          }
+      }
+#endif
       i = ((char*)p - h->data) / VERIF_UNIT;
       bitmaps[hi][i >> 3] |= (unsigned char)(1 << (i & 7));
       live += size;
@@ -276,7 +291,14 @@ static void verif_check_heap (sexp ctx, int full) {
           verif_fail("slots-exceed-object", p, (long)n, tag);
         } else {
           for (i = 0; i < n; i++) {
-            sexp v = slots[i];
+            sexp v;
+#if VERIF_ASAN
+            if (sexp_verif.poison && __asan_address_is_poisoned(&slots[i])) {
+              verif_fail("slot-lies-in-poisoned-slack", p, (long)i, tag);
+              continue;
+            }
+#endif
+            v = slots[i];
             sexp_heap vh;
             int vhi;
             sexp_sint_t vi;
@@ -294,6 +316,55 @@ static void verif_check_heap (sexp ctx, int full) {
       }
     }
   }
+  if (!full && sexp_verif.check > 1 && sexp_verif.check_fail == fails_before) {
+    /* shadow mark: everything reachable from the context (slots per type layout + the */
+    /* registered C locals of every context) must designate an object start of the tiling */
+    struct verif_ref { sexp x, parent; long slot; } *stk;
+    size_t cap = 4096, sp = 0;
+    unsigned char **seen = (unsigned char**) calloc(nheaps, sizeof(unsigned char*));
+    struct sexp_gc_var_t *saves;
+    stk = (struct verif_ref*) malloc(cap * sizeof(*stk));
+    for (h = sexp_context_heap(ctx), hi = 0; h; h = h->next, hi++)
+      seen[hi] = (unsigned char*) calloc(h->size / VERIF_UNIT / 8 + 2, 1);
+    stk[sp].x = ctx; stk[sp].parent = NULL; stk[sp].slot = 0; sp++;
+    while (sp > 0) {
+      struct verif_ref cur = stk[--sp];
+      sexp x = cur.x;
+      sexp_heap vh;
+      int vhi;
+      sexp_sint_t vi;
+      if (!x || !sexp_pointerp(x)) continue;
+      vh = verif_heap_of(ctx, x);
+      if (!vh) { verif_fail("reachable-reference-outside-heaps", cur.parent, cur.slot, cur.parent ? (long)sexp_pointer_tag(cur.parent) : -1); continue; }
+      vhi = verif_heap_index(ctx, vh);
+      vi = ((char*)x - vh->data) / VERIF_UNIT;
+      if ((((char*)x - vh->data) % VERIF_UNIT) || !(bitmaps[vhi][vi >> 3] & (1 << (vi & 7)))) {
+        verif_fail("reachable-reference-to-freed-or-non-object", cur.parent, cur.slot, cur.parent ? (long)sexp_pointer_tag(cur.parent) : -1);
+        continue;
+      }
+      if (seen[vhi][vi >> 3] & (1 << (vi & 7))) continue;
+      seen[vhi][vi >> 3] |= (unsigned char)(1 << (vi & 7));
+      tag = sexp_pointer_tag(x);
+      t = types[tag];
+      n = sexp_type_num_slots_of_object(t, x);
+      slots = (sexp*) (((char*)x) + sexp_type_field_base(t));
+      if (sp + (size_t)(n > 0 ? n : 0) + 64 >= cap) {
+        while (sp + (size_t)(n > 0 ? n : 0) + 64 >= cap) cap *= 2;
+        stk = (struct verif_ref*) realloc(stk, cap * sizeof(*stk));
+      }
+      if (sexp_contextp(x)) {
+        long k = 0;
+        for (saves = sexp_context_saves(x); saves && k < 60; saves = saves->next, k++)
+          if (saves->var) { stk[sp].x = *(saves->var); stk[sp].parent = x; stk[sp].slot = -1 - k; sp++; }
+      }
+      for (i = 0; i < n; i++) {
+        stk[sp].x = slots[i]; stk[sp].parent = x; stk[sp].slot = i; sp++;
+      }
+    }
+    for (hi = 0; hi < nheaps; hi++) free(seen[hi]);
+    free(seen);
+    free(stk);
+  }
   sexp_verif.live_bytes = live;
   sexp_verif.free_bytes = nfree;
   sexp_verif.total_bytes = total;
@@ -302,6 +373,32 @@ static void verif_check_heap (sexp ctx, int full) {
   if (bitmaps) {
     for (hi = 0; hi < nheaps; hi++) free(bitmaps[hi]);
     free(bitmaps);
+  }
+}
+
+/* debugging aid (call from gdb): who refers to target? */
+void sexp_verif_find_referrers (sexp ctx, sexp target) {
+  sexp_heap h;
+  sexp p, end, t, *types, *slots;
+  sexp_free_list r;
+  size_t size;
+  sexp_sint_t i, n;
+  types = sexp_vector_data(sexp_global(ctx, SEXP_G_TYPES));
+  for (h = sexp_context_heap(ctx); h; h = h->next) {
+    p = sexp_heap_first_block(h);
+    end = sexp_heap_end(h);
+    r = h->free_list->next;
+    while (p < end) {
+      if ((char*)r == (char*)p) { p = (sexp) (((char*)p) + r->size); r = r->next; continue; }
+      t = types[sexp_pointer_tag(p)];
+      size = sexp_heap_align(sexp_allocated_bytes(ctx, p));
+      n = sexp_type_num_slots_of_object(t, p);
+      slots = (sexp*) (((char*)p) + sexp_type_field_base(t));
+      for (i = 0; i < n; i++)
+        if (slots[i] == target)
+          fprintf(stderr, "REFERRER %p tag=%d slot=%ld marked=%d\n", (void*)p, (int)sexp_pointer_tag(p), (long)i, (int)sexp_markedp(p));
+      p = (sexp) (((char*)p) + size);
+    }
   }
 }
 
